@@ -71,14 +71,14 @@ def gen_rho(rng):
 def gen(tier, rng):
     # 'tie' cases are compared with the Coq model (interval goals, ~0.1 s each); all cases go through the
     # oracle on the real code
-    n_comp, n_jax, n_kernel = (200, 50, 30) if tier == 'quick' else (4000, 1000, 500)
+    n_comp, n_jax, n_kernel = (120, 30, 20) if tier == 'quick' else (4000, 1000, 500)
     n_comp_o, n_jax_o = (1500, 200) if tier == 'quick' else (20000, 2000)
     maxw = 6 if tier == 'quick' else 10
     cases = []
     # every flag combination x a few shapes first (structured), then random
     for mn in (False, True):
         for lw in (False, True):
-            for (v, w) in ((1, 1), (1, 2), (2, 3), (3, 1), (1, 5)):
+            for (v, w) in ((1, 1), (1, 2), (2, 3), (1, 5)):
                 for mode in ('small', 'ties', 'large'):
                     cases.append({'kind': 'comp', 'G': [gen_row(rng, w, mode) for _ in range(v)],
                                   'rho': 50.0 if mode != 'large' else rng.choice([1.0, 50.0]),
@@ -305,7 +305,7 @@ def check_cases(v, wd, cases, results, tag='tie'):
         text, n = lemma_for(i, c, res)
         items.append((i, text, n))
         total += n
-    ok, bad, errors, nfiles = run_goal_files(wd, items, per_file=max(60, total // (2 * core.NCPU) + 1))
+    ok, bad, errors, nfiles = run_goal_files(wd, items, per_file=max(60, total // core.NCPU + 1))
     for t in bad:
         bad_cases.add(int(t.split()[0]))
     missing = total - len(ok) - len(bad)
